@@ -27,6 +27,10 @@
                                   restarts with `wsInit`): the invariant `Good` (closed chunks scan and precede the current one,
                                   `Acc`, `CurOK`) holds along every history, and readAll at any commit, with or without its
                                   meta, = ok (exactly the later events at their offsets)
+    * `restart_takes_replay_result`   the writer state a restart builds with `wsInit` from the result of `readAll` (no assumed
+                                  position/checksum) satisfies `Good` again, and that replay delivered exactly the later events
+    * `readAll_resume_older_meta` readAll(P2, meta of an older commit P1 < P2 of the same chunk) = ok (events after P2);
+                                  `seek_older`; the C18-r5-2 mutation as `seekBad` with a `decide` witness
     * `readAll_truncated`         the truncation theorems lifted through readAll (scan, sort, chunk choice, seek included)
     * `commit_covered_per_file`   every committed offset is covered, file by file (closed chunks incl. their ROTATE_TO), by that
                                   file's fsync; the C18-r3-2 mutation (`rotateFSBad`) violates it (`decide` witness)
@@ -590,6 +594,239 @@ theorem readAll_truncated (cfg : Cfg) (hm : cfg.evMagic < 4294967296) (hsvc : cf
   rw [← hr] at hred
   obtain ⟨_, _, h3, h4⟩ := hred
   refine ⟨by rw [h3]; exact htr.1, by rw [h4, htr.2, hev]; simp⟩
+
+
+/-! ### restart = replay result; resume with the meta of an older commit -/
+
+theorem good_append (cfg : Cfg) (hupd : ∀ c a b, cfg.upd (cfg.upd c a) b = cfg.upd c (a ++ b))
+    (D0 : List Bytes) (w : WS) (c : Cur) (as : List Ap) (hb : (runAll cfg w as).offG < 9223372036854775808) (h : Good cfg D0 w c) :
+    Good cfg (D0 ++ (splitC cfg w as c).1) (runAll cfg w as) (splitC cfg w as c).2 := by
+  obtain ⟨ha, hk⟩ := splitC_inv cfg hupd as _ _ hb h.acc h.ok
+  exact ⟨splitC_preOK cfg as _ _ _ hb (by have := h.acc.1; omega) h.ok h.pre, ha, hk⟩
+
+/-- **a restart takes over exactly what the replay returns.**  Any history (`Good`), then the appends `pre ++ post`; the engine
+    restarts: it replays the files with `readAllFromPosition` from a commit after `pre` (with its meta or without) and builds the
+    new writer state with `wsInit` from the RESULT of that replay (`r.pos`, `r.crc`, `r.ts`; no assumed position/checksum).
+    The replay delivered exactly the events of `post`, and the new writer state together with the file list satisfies the
+    invariant `Good` again — so every theorem about further appends, commits and resumes applies to the restarted writer. -/
+theorem restart_takes_replay_result (cfg : Cfg) (hm : cfg.evMagic < 4294967296) (hsvc : cfg.evMagic ∉ serviceMagics)
+    (hupd : ∀ c a b, cfg.upd (cfg.upd c a) b = cfg.upd c (a ++ b))
+    (D0 : List Bytes) (pre post : List Ap) (w : WS) (c0 : Cur) (ts0 : Nat) (si : Option Meta)
+    (hsz : ∀ a ∈ pre ++ post, a.body.length < 4294967296 ∧ a.ts < 4294967296)
+    (hb : (runAll cfg w (pre ++ post)).offG < 9223372036854775808) (hg : Good cfg D0 w c0)
+    (wk : WS) (hwk : wk = runAll cfg w pre) (hsi : MetaFor wk.offG wk.crc si) (r : RA)
+    (hr : r = readAll cfg (D0 ++ allFiles cfg w (pre ++ post) c0.bytes) wk.offG si ts0 ⟨wk.offG, [], []⟩)
+    (b : Bool) (last : Hdr) :
+    r.err = none ∧ r.eng.evs = (offsR cfg wk post).reverse ∧
+    Good cfg (D0 ++ (splitC cfg w (pre ++ post) c0).1) (wsInit cfg b r.pos.toNat r.crc last r.ts) (splitC cfg w (pre ++ post) c0).2 ∧
+    (wsInit cfg b r.pos.toNat r.crc last r.ts).offG = (runAll cfg w (pre ++ post)).offG ∧
+    (wsInit cfg b r.pos.toNat r.crc last r.ts).crc = (runAll cfg w (pre ++ post)).crc := by
+  obtain ⟨h1, h2, h3, h4⟩ := readAll_resume_sessions cfg hm hsvc hupd D0 pre post w c0 ts0 si hsz hb hg wk hwk hsi r hr
+  have hrun : runAll cfg wk post = runAll cfg w (pre ++ post) := by rw [hwk, runAll_append]
+  rw [hrun] at h3 h4
+  have hpos : r.pos.toNat = (runAll cfg w (pre ++ post)).offG := by rw [h3]; simp
+  have hgood := good_append cfg hupd D0 w c0 (pre ++ post) hb hg
+  refine ⟨h1, h2, ⟨hgood.pre, ?_, hgood.ok⟩, ?_, ?_⟩
+  · rw [hpos, h4]; exact acc_wsInit cfg _ _ b last r.ts hgood.acc
+  · rw [hpos]; rfl
+  · rw [h4]; rfl
+
+
+theorem splitC_append (cfg : Cfg) : ∀ (p1 p2 : List Ap) (w : WS) (c : Cur),
+    (splitC cfg w (p1 ++ p2) c).1 = (splitC cfg w p1 c).1 ++ (splitC cfg (runAll cfg w p1) p2 (splitC cfg w p1 c).2).1 ∧
+    (splitC cfg w (p1 ++ p2) c).2 = (splitC cfg (runAll cfg w p1) p2 (splitC cfg w p1 c).2).2
+  | [], _, _, _ => by simp [splitC, runAll]
+  | a :: as, p2, w, c => by
+    by_cases hr : rotates cfg w a = true
+    · have ih := splitC_append cfg as p2 (apNext cfg w a) (rfCur cfg w a)
+      simp only [List.cons_append, splitC, hr, if_true, runAll, ih.1, ih.2, and_self]
+    · have hr' : rotates cfg w a = false := by simpa using hr
+      have ih := splitC_append cfg as p2 (apNext cfg w a) { c with body := c.body ++ apA cfg w a }
+      simp only [List.cons_append, splitC, hr', Bool.false_eq_true, if_false, runAll, ih.1, ih.2, and_self]
+
+theorem splitC_noRot (cfg : Cfg) : ∀ (as : List Ap) (w : WS) (c : Cur), NoRotR cfg w as →
+    (splitC cfg w as c).1 = [] ∧ (splitC cfg w as c).2.hd = c.hd ∧ (splitC cfg w as c).2.pos = c.pos ∧
+    (splitC cfg w as c).2.crc = c.crc ∧ ∃ X, (splitC cfg w as c).2.body = c.body ++ X
+  | [], _, _, _ => ⟨rfl, rfl, rfl, rfl, [], by simp [splitC]⟩
+  | a :: as, w, c, h => by
+    have hr' : rotates cfg w a = false := h.1
+    obtain ⟨i1, i2, i3, i4, X, i5⟩ := splitC_noRot cfg as (apNext cfg w a) { c with body := c.body ++ apA cfg w a } h.2
+    simp only [splitC, hr', Bool.false_eq_true, if_false]
+    exact ⟨i1, i2, i3, i4, apA cfg w a ++ X, by rw [i5, List.append_assoc]⟩
+
+theorem runAll_grows (cfg : Cfg) (as : List Ap) (w : WS) (h : as ≠ []) : w.offG < (runAll cfg w as).offG := by
+  cases as with
+  | nil => exact absurd rfl h
+  | cons a as =>
+    have := runAll_mono cfg as (apNext cfg w a)
+    obtain ⟨hge, hnx⟩ := apNext_offG_ge cfg w a
+    have h8 := apA_length cfg w a
+    have hm := (apMid_fields cfg w a).1
+    simp only [runAll]; split at hnx <;> omega
+
+/-- **seek with the meta of an OLDER commit of the same file.**  The file holds `A1 ++ A2 ++ R`; the meta names the position
+    behind `A1` with the checksum up to there; the reader is asked to start behind `A2`.  The checksum is verified against the
+    meta over `A1`, recomputed over `A2`, and the loop starts behind `A2` on `R`. -/
+theorem seek_older (cfg : Cfg) (h : Hdr) (A1 A2 R : Bytes) (m : Meta) (ts : Nat) (hd : h.data = A1 ++ (A2 ++ R))
+    (hpos : m.pos = h.pos + A1.length) (hcrc : cfg.upd h.crc A1 = m.crc) (h2 : A2.length ≠ 0) :
+    seek cfg h (m.pos + A2.length) (some m) ts = .ok (m.pos + A2.length, cfg.upd m.crc A2, R, m.ts) := by
+  have e1 : ¬ (m.pos > m.pos + (A2.length : Int)) := by omega
+  have e2 : h.pos ≤ m.pos := by omega
+  have e3 : (m.pos - h.pos).toNat = A1.length := by omega
+  have e4 : atLeast h.data A1.length = true := by rw [atLeast_iff, hd]; simp
+  have t1 : h.data.take A1.length = A1 := by rw [hd]; exact List.take_left' rfl
+  have t2 : h.data.drop A1.length = A2 ++ R := by rw [hd]; exact List.drop_left' rfl
+  have e5 : m.pos < m.pos + (A2.length : Int) := by omega
+  have e6 : (m.pos + (A2.length : Int) - m.pos).toNat = A2.length := by omega
+  have e7 : atLeast (A2 ++ R) A2.length = true := by rw [atLeast_iff]; simp
+  simp [seek, e1, e2, e3, e4, t1, t2, hcrc, e5, e6, e7]
+
+/-- readAll with the meta of an older commit of the same chunk reduces to the replay of the remaining chunks -/
+theorem readAll_reduce_older (cfg : Cfg) (hupd : ∀ c a b, cfg.upd (cfg.upd c a) b = cfg.upd c (a ++ b))
+    (D0 : List Bytes) (pre1 pre2 post : List Ap) (w : WS) (c0 : Cur) (k1 : Bytes) (ts0 mts : Nat)
+    (hb : (runAll cfg w ((pre1 ++ pre2) ++ post)).offG < 9223372036854775808)
+    (hp : PreOK cfg D0 c0.pos) (ha : Acc cfg w c0) (hk : CurOK cfg c0) (w1 : WS) (hw1 : w1 = runAll cfg w pre1)
+    (hnr : NoRotR cfg w1 pre2) (hne : pre2 ≠ []) (wk : WS) (hwk : wk = runAll cfg w (pre1 ++ pre2)) :
+    ∃ (s : RS) (fuel : Nat), At s wk.offG wk.crc (layoutC cfg wk post (k1, [])).1 ∧
+      (layoutC cfg wk post (k1, [])).1.length / 4 + 2 ≤ fuel ∧ s.eng.evs = [] ∧
+      (let r := readAll cfg (D0 ++ allFilesK cfg w ((pre1 ++ pre2) ++ post) c0.bytes k1) wk.offG (some ⟨w1.offG, w1.crc, mts⟩) ts0 ⟨wk.offG, [], []⟩
+       let f := finish cfg (readLoop cfg fuel s) ((layoutC cfg wk post (k1, [])).2.map hdrOf)
+       r.pos = f.1 ∧ r.crc = f.2.1 ∧ r.err = f.2.2.1 ∧ r.eng = f.2.2.2.1) := by
+  -- the chunk of the older commit is the chunk of the resume position: `pre2` does not rotate
+  have hsp := splitC_append cfg pre1 pre2 w c0
+  rw [← hw1] at hsp
+  obtain ⟨hn1, hn2, hn3, hn4, X, hn5⟩ := splitC_noRot cfg pre2 w1 (splitC cfg w pre1 c0).2 hnr
+  have hb1 : (runAll cfg w pre1).offG < 9223372036854775808 := by
+    have := runAll_mono cfg (pre2 ++ post) (runAll cfg w pre1)
+    rw [← runAll_append, ← List.append_assoc] at this; omega
+  obtain ⟨hacc1, _⟩ := splitC_inv cfg hupd pre1 w c0 hb1 ha hk
+  rw [← hw1] at hacc1
+  have hX : X.length ≠ 0 := by
+    intro hx
+    have hbX : (runAll cfg w (pre1 ++ pre2)).offG < 9223372036854775808 := by
+      have := runAll_mono cfg post (runAll cfg w (pre1 ++ pre2)); rw [← runAll_append] at this; omega
+    obtain ⟨hacc2, _⟩ := splitC_inv cfg hupd (pre1 ++ pre2) w c0 hbX ha hk
+    have hgrow := runAll_grows cfg pre2 w1 hne
+    rw [hw1, ← runAll_append] at hgrow
+    have e1 := hacc1.1; have e2 := hacc2.1
+    rw [hsp.2] at e2
+    simp only [Cur.bytes, hn2, hn3, hn5, List.length_append] at e1 e2
+    rw [hw1] at e1
+    omega
+  generalize hpre : pre1 ++ pre2 = pre at *
+  subst hwk
+  generalize hwk : runAll cfg w pre = wk at *
+  have hbk : (runAll cfg wk post).offG < 9223372036854775808 := by rw [← hwk, ← runAll_append]; exact hb
+  have hbk0 : wk.offG < 9223372036854775808 := Nat.lt_of_le_of_lt (runAll_mono cfg post wk) hbk
+  obtain ⟨hscan, hinc⟩ := scan_filesK cfg D0 w (pre ++ post) c0 k1 hb hp ha hk
+  obtain ⟨hacc, hck⟩ := splitC_inv cfg hupd pre w c0 (by rw [hwk]; exact hbk0) ha hk
+  have hpre' := splitC_preOK cfg pre w c0 D0 (by rw [hwk]; exact hbk0) (by have := ha.1; omega) hk hp
+  rw [hwk] at hacc
+  have hfiles := allFilesK_append cfg k1 pre post w c0
+  rw [hwk] at hfiles
+  generalize hD : (splitC cfg w pre c0).1 = D at hfiles hpre'
+  generalize hcK : (splitC cfg w pre c0).2 = cK at hfiles hacc hck hpre'
+  have hlat := laterOK_facts cfg _ _ (layout_laterOK_K cfg k1 post wk hbk)
+  let c2 := (layoutC cfg wk post (k1, [])).1
+  let l2 := (layoutC cfg wk post (k1, [])).2
+  have hcf : cK.bytes ++ c2 = cK.hd ++ (cK.body ++ c2) := by simp [Cur.bytes, List.append_assoc]
+  have hcpos : (gh (cK.bytes ++ c2)).pos = (cK.pos : Int) := by rw [hcf]; exact (hck _).2.1
+  have hccrc : (gh (cK.bytes ++ c2)).crc = cK.crc := by rw [hcf]; exact (hck _).2.2
+  have hH : (D0 ++ allFilesK cfg w (pre ++ post) c0.bytes k1).map gh = ((D0 ++ D).map gh ++ [gh (cK.bytes ++ c2)]) ++ l2.map gh := by
+    rw [hfiles]; simp [allFilesK, c2, l2]
+  rw [hH] at hscan hinc
+  have hPk : (cK.pos : Int) ≤ (wk.offG : Int) := by have := hacc.1; omega
+  have hle : ∀ h ∈ (D0 ++ D).map gh ++ [gh (cK.bytes ++ c2)], h.pos ≤ (wk.offG : Int) := by
+    intro h hh
+    rcases List.mem_append.mp hh with hh | hh
+    · have := hpre'.2.2 h hh; omega
+    · simp only [List.mem_singleton] at hh; subst hh; omega
+  have hgt : ∀ h ∈ (l2.map gh).head?, (wk.offG : Int) < h.pos := by
+    intro h hh
+    exact hlat.2.2.2 h (List.mem_of_mem_head? hh)
+  have hidx := indexByPos_split (wk.offG : Int) ((D0 ++ D).map gh ++ [gh (cK.bytes ++ c2)]) (l2.map gh) 0 0 (by simp) hle hgt
+  have hidx' : indexByPos (wk.offG : Int) (((D0 ++ D).map gh ++ [gh (cK.bytes ++ c2)]) ++ l2.map gh) 0 0 = (D0 ++ D).length := by
+    rw [hidx]; simp
+  have hdrop : (((D0 ++ D).map gh ++ [gh (cK.bytes ++ c2)]) ++ l2.map gh).drop (D0 ++ D).length = gh (cK.bytes ++ c2) :: l2.map hdrOf := by
+    rw [List.append_assoc, List.drop_append_of_le_length (by simp), List.drop_of_length_le (by simp)]
+    simp only [List.nil_append, List.singleton_append]
+    rw [hlat.2.1]
+  obtain ⟨h0, hs, hcons⟩ : ∃ h0 hs, ((D0 ++ D).map gh ++ [gh (cK.bytes ++ c2)]) ++ l2.map gh = h0 :: hs := by
+    cases hl : ((D0 ++ D).map gh ++ [gh (cK.bytes ++ c2)]) ++ l2.map gh with
+    | nil => simp at hl
+    | cons a b => exact ⟨a, b, rfl⟩
+  have hlow : ¬ ((wk.offG : Int) < h0.pos) := by
+    have hmem : h0 ∈ (D0 ++ D).map gh ++ [gh (cK.bytes ++ c2)] := by
+      cases hd : (D0 ++ D).map gh ++ [gh (cK.bytes ++ c2)] with
+      | nil => simp at hd
+      | cons a b => rw [hd] at hcons; simp at hcons; rw [← hcons.1]; simp
+    have := hle h0 hmem; omega
+  rw [hcons] at hscan hidx' hdrop
+  have hfuel : (layoutC cfg wk post (k1, [])).1.length / 4 + 2 ≤ (layoutC cfg wk post (k1, [])).1.length / 2 + 4 := by omega
+  -- the seek with the OLDER meta: checksum verified up to the older commit, recomputed from there to the resume position
+  have hcKb : cK.bytes = (splitC cfg w pre1 c0).2.bytes ++ X := by
+    rw [← hcK, hsp.2]; simp only [Cur.bytes, hn2, hn5, List.append_assoc]
+  have hcKp : cK.pos = (splitC cfg w pre1 c0).2.pos := by rw [← hcK, hsp.2]; exact hn3
+  have hcKc : cK.crc = (splitC cfg w pre1 c0).2.crc := by rw [← hcK, hsp.2]; exact hn4
+  have hP1 : (cK.pos : Int) ≤ (w1.offG : Int) := by rw [hcKp]; have := hacc1.1; omega
+  have hP12 : w1.offG ≤ wk.offG := by
+    have := runAll_mono cfg pre2 w1; rw [hw1, ← runAll_append, hpre, hwk] at this; rw [hw1]; exact this
+  have hseek := seek_older cfg (gh (cK.bytes ++ c2)) (splitC cfg w pre1 c0).2.bytes X c2 ⟨w1.offG, w1.crc, mts⟩ ts0
+    (by rw [gh_data, hcKb, List.append_assoc])
+    (by simp only [hcpos, hcKp]; have := hacc1.1; omega) (by rw [hccrc, hcKc]; exact hacc1.2) hX
+  have hend : ((⟨w1.offG, w1.crc, mts⟩ : Meta).pos + (X.length : Int)) = (wk.offG : Int) := by
+    have e1 := hacc1.1; have e2 := hacc.1
+    rw [hcKb, hcKp] at e2; simp only [List.length_append] at e2; show (w1.offG : Int) + _ = _; omega
+  have hcrc2 : cfg.upd w1.crc X = wk.crc := by
+    rw [← hacc.2, hcKb, hcKc, ← hupd, hacc1.2]
+  rw [hend, hcrc2] at hseek
+  -- the older meta passes the "same chunk" test
+  have hle1 : ∀ h ∈ (D0 ++ D).map gh ++ [gh (cK.bytes ++ c2)], h.pos ≤ (w1.offG : Int) := by
+    intro h hh
+    rcases List.mem_append.mp hh with hh | hh
+    · have := hpre'.2.2 h hh; omega
+    · simp only [List.mem_singleton] at hh; subst hh; omega
+  have hgt1 : ∀ h ∈ (l2.map gh).head?, (w1.offG : Int) < h.pos := by
+    intro h hh; have := hgt h hh; omega
+  have hidx1 := indexByPos_split (w1.offG : Int) ((D0 ++ D).map gh ++ [gh (cK.bytes ++ c2)]) (l2.map gh) 0 0 (by simp) hle1 hgt1
+  have hidx1' : indexByPos (w1.offG : Int) (h0 :: hs) 0 0 = (D0 ++ D).length := by
+    rw [← hcons, hidx1]; simp
+  have hnlt : ¬ ((wk.offG : Int) < (w1.offG : Int)) := by omega
+  refine ⟨{ pos := (wk.offG : Int), crc := wk.crc, rest := c2, slack := c2.length % 4, dk := false, ts := mts, commitPos := 0,
+            eng := ⟨wk.offG, [], []⟩ }, c2.length / 2 + 4, ⟨rfl, rfl, rfl, rfl, rfl, rfl⟩, hfuel, rfl, ?_⟩
+  simp only [readAll, hscan, hlow, if_false, hidx', hidx1', hnlt, or_false, ne_eq, not_true_eq_false, hdrop, readFiles_first,
+    readFile, hseek]
+  exact ⟨rfl, rfl, rfl, rfl⟩
+
+
+/-- **readAll_resume_older_meta.**  Any history (`Good`); appends `pre1 ++ pre2 ++ post`, `pre2` non-empty and without rotation
+    (the commits after `pre1` and after `pre2` lie in the same chunk).  `readAllFromPosition(offset after pre2, meta of the OLDER
+    commit after pre1)` delivers exactly the events of `post`, at the offsets `Append` returned, ending at the writer's position
+    and checksum. -/
+theorem readAll_resume_older_meta (cfg : Cfg) (hm : cfg.evMagic < 4294967296) (hsvc : cfg.evMagic ∉ serviceMagics)
+    (hupd : ∀ c a b, cfg.upd (cfg.upd c a) b = cfg.upd c (a ++ b))
+    (D0 : List Bytes) (pre1 pre2 post : List Ap) (w : WS) (c0 : Cur) (ts0 mts : Nat)
+    (hsz : ∀ a ∈ post, a.body.length < 4294967296 ∧ a.ts < 4294967296)
+    (hb : (runAll cfg w ((pre1 ++ pre2) ++ post)).offG < 9223372036854775808) (hg : Good cfg D0 w c0)
+    (w1 : WS) (hw1 : w1 = runAll cfg w pre1) (hnr : NoRotR cfg w1 pre2) (hne : pre2 ≠ [])
+    (wk : WS) (hwk : wk = runAll cfg w (pre1 ++ pre2)) (r : RA)
+    (hr : r = readAll cfg (D0 ++ allFiles cfg w ((pre1 ++ pre2) ++ post) c0.bytes) wk.offG (some ⟨w1.offG, w1.crc, mts⟩) ts0 ⟨wk.offG, [], []⟩) :
+    r.err = none ∧ r.eng.evs = (offsR cfg wk post).reverse ∧ r.pos = ((runAll cfg wk post).offG : Int) ∧
+      r.crc = (runAll cfg wk post).crc := by
+  obtain ⟨s, fuel, hat, hf, hev, hred⟩ := readAll_reduce_older cfg hupd D0 pre1 pre2 post w c0 [] ts0 mts hb hg.pre hg.acc hg.ok
+    w1 hw1 hnr hne wk hwk
+  have hbk : (runAll cfg wk post).offG < 9223372036854775808 := by rw [hwk, ← runAll_append]; exact hb
+  have hrep := replay_rotating cfg hm hsvc post wk s fuel hsz hbk hat hf
+  rw [allFilesK_nil] at hred
+  rw [← hr] at hred
+  obtain ⟨h1, h2, h3, h4⟩ := hred
+  refine ⟨by rw [h3]; exact hrep.1, by rw [h4, hrep.2.1, hev]; simp, by rw [h1]; exact hrep.2.2.1, by rw [h2]; exact hrep.2.2.2⟩
+
+/-- the seeded mutation C18-r5-2 as a variant of the seek: after the checksum was verified against the meta the position is
+    set to the requested start although only the bytes up to the meta's position were read -/
+def seekBad (cfg : Cfg) (h : Hdr) (startPos : Int) (m : Meta) : Option (Int × UInt32 × Bytes) :=
+  let need := (m.pos - h.pos).toNat
+  if cfg.upd h.crc (h.data.take need) ≠ m.crc then none else some (startPos, m.crc, h.data.drop need)
 
 
 /-! ### the writer loop writes the layout (Lemmas/BinlogWB) -/
@@ -1272,6 +1509,20 @@ example : completeC cfgX wR (apsT.drop 3) 20 = 1 ∧
     (readAll cfgX (D3 ++ allFilesK cfgX wR [] c3.bytes ((layoutC cfgX wR (apsT.drop 3) ([], [])).1.take 20)) 192 none 0
       ⟨192, [], []⟩).eng.evs.map (·.1) = [192] := by decide
 
+
+/-! last round: older meta -/
+
+-- readAll_resume_older_meta on the two-session instance: resume at 204 with the meta of the older commit at 192 (same chunk)
+set_option maxRecDepth 60000 in
+example : (readAll cfgX filesR 204 (some ⟨192, wR.crc, 5⟩) 0 ⟨204, [], []⟩).err = none ∧
+          (readAll cfgX filesR 204 (some ⟨192, wR.crc, 5⟩) 0 ⟨204, [], []⟩).eng.evs.map (·.1) = [204] := by decide
+-- the C18-r5-2 variant: position says 204 but the rest still starts with the 12 bytes of the event at 192, checksum is the old one
+set_option maxRecDepth 60000 in
+example : (seekBad cfgX (hdrOf (filesR.getLastD [])) 204 ⟨192, wR.crc, 5⟩).map (fun x => (x.1, x.2.2.length))
+            = some (204, (filesR.getLastD []).length - 36) ∧
+          (match seek cfgX (hdrOf (filesR.getLastD [])) 204 (some ⟨192, wR.crc, 5⟩) 0 with
+           | .ok x => decide ((x.1, x.2.2.1.length) = (204, (filesR.getLastD []).length - 48)) | .error _ => false) = true := by decide
+
 /-! durability order at rotation: the mutated variant -/
 
 /-- the seeded mutation C18-r3-2 as a variant: after ROTATE_TO was written to the old chunk, the final Sync goes to the NEW fd -/
@@ -1358,9 +1609,8 @@ example : (readAll cfgT [chunk0, encRotFrom 5 72 0 999 2] 0 none 0 eng0).err = n
 
 /-
   STILL NOT PROVED (covered by the correspondence + oracle of go/C18):
-  * `Sessions.restart` takes the position/checksum of the previous writer state as what the replay returned; that the replay
-    does return them is `readAll_resume_sessions` itself (pos/crc of the result) — the two are not composed into one statement
-    about `wsInit` applied to the `RA` record (fields `last`, `ts` are free parameters of `restart`).
+  * (closed in the last round: `restart_takes_replay_result` builds the restarted writer from the RESULT of readAll;
+    `readAll_resume_older_meta` covers the meta of an older commit of the same chunk.)
   * bit flips: `crc_record_checked` is the reduction form; no end-to-end `readAll` statement for a flipped file list.
 -/
 
